@@ -258,7 +258,7 @@ def finish(pid, prop, tier, seed, repo, results, canaries, wall):
         print('HARNESS-ERROR: %d paths not encoded inside the claimed domain, e.g. %s' % (len(not_encoded), json.dumps(not_encoded[0])[:800]))
     if undecided:
         harness_err = True
-        print('HARNESS-ERROR: %d undecided solver queries' % undecided)
+        print('HARNESS-ERROR: %d undecided solver queries, e.g. %s' % (undecided, [(r['cfg'], r.get('undecided_names')) for r in main_r if r.get('undecided')][:2]))
     if can_missed:
         harness_err = True
         print('HARNESS-ERROR: canary mutation(s) not detected: %s' % can_missed)
